@@ -225,6 +225,11 @@ def isKeyPos : SerScalar.Pos → Bool
   | .mapKey | .flowMapKey => true
   | _ => false
 
+theorem indentCols_shift0 (o : Opts) (cx : Ctx) (d : Nat) (h : cx.shift = 0) :
+    indentCols o cx d = o.indentStep * d := by
+  simp only [indentCols, h, Int.add_zero]
+  omega
+
 /-- "the writer decides *plain* for `s` in position `p`": the key sink's test in key positions; in value
 positions no automatic block style, no `quote_all`, the value test, and not the one-character special
 case (`.` is written `'.'`); everywhere `!is_unsafe_plain_shape(s)`. -/
@@ -244,7 +249,7 @@ theorem emit_plain (o : Opts) (p : SerScalar.Pos) (hp : simplePos (toRead p) = t
   · rw [if_pos hk] at hw
     cases p <;> first
       | (cases hk; done)
-      | (simp [emitDoc, keySinkStr, hw, opening, toRead, lineEnd, Spec.Read.Pos.closing])
+      | (simp [emitDoc, keySinkStr, hw, opening, toRead, lineEnd, Spec.Read.Pos.closing, posPre, posPost])
   · rw [if_neg hk] at hw
     obtain ⟨hq, hauto, hpv, hu, hdot⟩ := hw
     obtain ⟨_, hhead, _, _, _, _⟩ := pvs_unfold hpv
@@ -262,7 +267,7 @@ theorem emit_plain (o : Opts) (p : SerScalar.Pos) (hp : simplePos (toRead p) = t
       | (simp only [toRead, Spec.Read.Pos.isFlow] at hauto hpv
          cases hy : o.yaml12 <;>
          (rw [hy] at hpv
-          simp [emitDoc, hpv, hu, hV, spaces, serializeStr, hauto, scalarTail, hspecial, writePlainOrQuotedValue, hq, preamble,
-            opening, toRead, lineEnd, Spec.Read.Pos.closing, writeIndent, hy]))
+          simp [emitDoc, posCtx, posPre, posPost, hpv, hu, hV, spaces, serializeStr, hauto, scalarTail, hspecial, writePlainOrQuotedValue, hq, preamble,
+            opening, toRead, lineEnd, Spec.Read.Pos.closing, writeIndent, hy, indentCols]))
 
 end SaphyrVerif.Lemmas.C12
